@@ -70,10 +70,10 @@ def ledger_ops(beh):
 
 
 def replay(ctx, thorough):
-    plan = [("Enforce", "enforce", True, 250), ("Shadow", "shadow", True, 150), ("Off", "off", True, 60),
-            ("EnforceDirect", "enforce", False, 120), ("ShadowDirect", "shadow", False, 80)]
+    plan = [("Enforce", "enforce", True, 150), ("Shadow", "shadow", True, 100), ("Off", "off", True, 40),
+            ("EnforceDirect", "enforce", False, 80)]
     if thorough:
-        plan = [(n, m, lz, num * 12) for n, m, lz, num in plan]
+        plan = [(n, m, lz, num * 15) for n, m, lz, num in plan + [("ShadowDirect", "shadow", False, 80)]]
     for name, mode, lazy, num in plan:
         behs = ctx.tlc_behaviours("Ledger", "MC_Ledger.tla", "Sim_%s.cfg" % name, num=num, depth=70, timeout=900)
         uniq = {}
@@ -112,10 +112,10 @@ def replay(ctx, thorough):
 
 
 def stress(ctx, thorough):
-    plan = [("Enforce", "enforce", True), ("Shadow", "shadow", True), ("EnforceDirect", "enforce", False), ("Off", "off", True)]
+    plan = [("Enforce", "enforce", True), ("Shadow", "shadow", True), ("Off", "off", True)]
     if thorough:
-        plan.append(("ShadowDirect", "shadow", False))
-    rounds = 25 if not thorough else 250
+        plan += [("EnforceDirect", "enforce", False), ("ShadowDirect", "shadow", False)]
+    rounds = 12 if not thorough else 150
     ok_traces = 0
     tampered = False
     for name, mode, lazy in plan:
@@ -145,10 +145,10 @@ def stress(ctx, thorough):
         nlines = sum(1 for _ in open(trace))
         ok, r = ctx.tlc_trace("Ledger", "Trace_Ledger.tla", "Trace_%s.cfg" % name, trace, timeout=1500, deque=False)
         info["trace_lines"] = nlines
-        if r.violated == "NotAccepted":
+        if ok:
             ok_traces += cnt.get("traces", 0)
             info["trace_states"] = r.distinct
-        elif r.violated:
+        elif r.violated and r.violated != "TraceAccepted":
             ctx.violation("ledger/trace/" + r.violated,
                           "[ledger stress %s] invariant %s is false on a recorded concurrent history of the "
                           "RecursionWorkLedger" % (name, r.violated), {"trace": open(trace).read().splitlines()[:400]})
@@ -157,7 +157,7 @@ def stress(ctx, thorough):
             ctx.log("DRIFT: recorded ledger history (%s) is not explained by Ledger.tla; no property predicate failed" % name)
             info["trace_rejected_tail"] = r.out.splitlines()[-12:]
         # binding: a corrupted response must be rejected (once per run)
-        if not tampered and r.violated == "NotAccepted" and mode == "enforce":
+        if not tampered and ok and mode == "enforce":
             tampered = True
             lines = [json.loads(x) for x in open(trace)]
             for ln in lines:
@@ -170,8 +170,8 @@ def stress(ctx, thorough):
             with open(bad, "w") as f:
                 for ln in lines:
                     f.write(json.dumps(ln) + "\n")
-            _, rb = ctx.tlc_trace("Ledger", "Trace_Ledger.tla", "Trace_%s.cfg" % name, bad, timeout=1500, deque=False)
-            if rb.violated == "NotAccepted":
+            okb, rb = ctx.tlc_trace("Ledger", "Trace_Ledger.tla", "Trace_%s.cfg" % name, bad, timeout=1500, deque=False)
+            if okb:
                 raise vf.MachineryError("tamper test: Trace_Ledger accepted a history in which an over-cap debit "
                                         "was accepted (binding lost)")
             info["tamper_rejected"] = True
